@@ -336,17 +336,6 @@ def r8(ctx):
     # themselves (shared with C01.R5)
     from rules import C01
     C01.r5(ctx)
-    IFR = common_send.IFR
-    for many, one in (("record_in_flight_cancels", "record_in_flight_cancel"), ("record_in_flight_opens", "record_in_flight_open")):
-        ds = [d for d in ctx.find(name=many, trait=IFR, allow_many=True)]
-        okall = bool(ds)
-        got = []
-        for d in ds:
-            vs = common.elementwise_views(ctx, d)
-            got.append([(v["source"], v["calls"]) for v in vs])
-            okall = okall and len(vs) == 1 and vs[0]["complete"] and vs[0]["source"] == "requests" and \
-                [c for c in vs[0]["calls"]] == [("InFlightRequestRecorder::%s(self, $x)" % one, "true")]
-        ctx.check("InFlightRequestRecorder::" + many, okall, "every sent request of the batch is recorded, one by one", got=got, key="each")
 
 
 def r9(ctx):
@@ -407,6 +396,66 @@ def r10(ctx):
                   got=[(render(h[1])[:100], common.canon_guard(fb.guard(h[0]))) for h in hs], key="hook-iff-disconnect")
 
 
+def _unrec_leaves(t):
+    """the parts whose unrecoverable errors are collected: leaves of the extend-tree"""
+    if t[0] == "call" and mir.short(t[1]) == "NoneOneOrMany::into_option":
+        return _unrec_leaves(t[2][0])
+    if t[0] == "call" and mir.short(t[1]) == "NoneOneOrMany::extend":
+        return _unrec_leaves(t[2][0]) + _unrec_leaves(t[2][1])
+    if t[0] == "call" and mir.short(t[1]) == "SendRequestsOutput::unrecoverable_errors":
+        return [render(t[2][0])]
+    return ["?" + render(t)[:120]]
+
+
+def r11(ctx):
+    """fatal classification: Engine::process decides whether an action was fatal only through `unrecoverable_errors()`; the accessor
+    must look at EVERY part of the output (a failed open of a ClosePositions command is as fatal as a failed cancel)"""
+    both = "barter::engine::action::send_requests::SendCancelsAndOpensOutput"
+
+    def leaves(b):
+        out = {}
+        for g, t, bi in b.expanded_cases(0):
+            t = common.resolve_calls(ctx, t, lambda c: mir._strip_generics(c).endswith("SendCancelsAndOpensOutput::unrecoverable_errors"))
+            out.setdefault(common.canon_guard(g), []).append(sorted(_unrec_leaves(t)))
+        return out
+    b = ctx.fibody(name="unrecoverable_errors", self_adt="barter::engine::action::ActionOutput", trait="")
+    got = leaves(b)
+    want = {"(self is GenerateAlgoOrders)": [["self.as:GenerateAlgoOrders.0.cancels_and_opens.cancels", "self.as:GenerateAlgoOrders.0.cancels_and_opens.opens"]],
+            "(self is CancelOrders)": [["self.as:CancelOrders.0"]], "(self is OpenOrders)": [["self.as:OpenOrders.0"]],
+            "(self is ClosePositions)": [["self.as:ClosePositions.0.cancels", "self.as:ClosePositions.0.opens"]]}
+    ctx.check("ActionOutput::unrecoverable_errors", got == want,
+              "per action kind, the unrecoverable errors of every request list of that output (cancels AND opens)", got=got, want=want, key="all-parts")
+    b = ctx.fibody(name="unrecoverable_errors", self_adt="barter::engine::action::generate_algo_orders::GenerateAlgoOrdersOutput", trait="")
+    got = leaves(b)
+    ctx.check("GenerateAlgoOrdersOutput::unrecoverable_errors", got == {"true": [["self.cancels_and_opens.cancels", "self.cancels_and_opens.opens"]]},
+              "the unrecoverable errors of both request lists", got=got, key="all-parts")
+    b = ctx.fibody(name="unrecoverable_errors", self_adt=both, trait="")
+    got = leaves(b)
+    ctx.check("SendCancelsAndOpensOutput::unrecoverable_errors", got == {"true": [["self.cancels", "self.opens"]]},
+              "the unrecoverable errors of the cancels and of the opens", got=got, key="all-parts")
+    b = ctx.fibody(name="unrecoverable_errors", self_adt="barter::engine::action::send_requests::SendRequestsOutput", trait="")
+    try:
+        src, steps, sink = common.pipeline(ctx, b.return_term())
+        got = (render(src), steps, sink)
+    except Exception as e:   # noqa
+        got = "unrecognised: %s" % e
+    ctx.check("SendRequestsOutput::unrecoverable_errors", got == ("self.errors", [("filter", ["$x.1 is Unrecoverable"]), ("map", "$x.1.as:Unrecoverable.0")], "collect"),
+              "exactly the Unrecoverable errors of the failed requests, each of them", got=got, key="selects-unrecoverable")
+    # Engine::process: a command output with an unrecoverable error is reported as errors (the audit becomes terminal)
+    P = "barter::engine::Processor"
+    pb = ctx.ibody(ctx.find(name="process", self_adt=ENG, trait=P))
+    ue = [(bi, tm) for bi, t, tm in pb.real_calls() if mir.short(tm[1]) == "ActionOutput::unrecoverable_errors"]
+    pe = [(bi, tm) for bi, t, tm in pb.real_calls() if mir.short(tm[1]) == "EngineAudit::process_with_output_and_errs"]
+    ok = len(ue) == 1 and len(pe) == 1
+    if ok:
+        u, a = ue[0][1], pe[0][1]
+        ok = render(a[2][1]) == render(u) + ".as:Some.0" and render(a[2][2]) == render(u[2][0]) and \
+            set(common.canon_guard(pb.guard(pe[0][0]))[1:-1].split(" && ")) == {"event is Command", "%s is Some" % render(u)} and \
+            any(t == a for g, t, bi in pb.expanded_cases(0))
+    ctx.check("Engine::process:command-output", ok, "a command whose output has unrecoverable errors is reported with them (terminal audit), "
+              "exactly when the accessor finds any", got=[(render(x[1])[:200], common.canon_guard(pb.guard(x[0]))[:200]) for x in pe], key="fatal-reported")
+
+
 RULES = [
     ("R9", "reporting: is_empty covers every part of the output; non-empty outputs are attached to the audit", r9),
     ("R8", "in-flight recorders: a sent open is tracked OpenInFlight, a sent cancel marks the tracked order CancelInFlight", r8),
@@ -418,4 +467,5 @@ RULES = [
     ("R6", "who may deliver on an execution link", r6),
     ("R7", "a missing link is an error", r7),
     ("R10", "request-sending strategy hooks run exactly on their trigger and their output is reported", r10),
+    ("R11", "fatal classification: unrecoverable_errors() covers every request list of every action output", r11),
 ]
